@@ -410,7 +410,13 @@ def dispatch (H : Int → Int) (T : Tag → Int) (p : Party) (sent0 : Sent) (l :
       match aGet p1.dbar tag with
       | none => stop p1 []
       | some db =>
-        if H msg.payload = db then
+        -- further answers are ignored once the stored payload matches the agreed digest
+        -- (repair of finding F7)
+        let known : Bool := match aGet p1.mbar tag with
+          | some mb => decide (H mb = db)
+          | none => false
+        if known then stop p1 []
+        else if H msg.payload = db then
           let p2 := { p1 with mbar := aSet p1.mbar tag msg.payload }
           let r := deliverOrBuffer p2 msg []
           { r with sent := sent0 ++ r.sent }
